@@ -67,6 +67,10 @@ class InfoFilePersister:
             except OSError as e:
                 if e.errno == errno.ENAMETOOLONG:
                     name_too_long = True
+                elif e.errno not in (errno.EEXIST, None):
+                    # another name cannot help (permission denied, read-only
+                    # file system, no space left, I/O error, ...)
+                    raise
                 yield NeedsMoreAttempts(trashinfo_path,
                                         "attempt for creating %s failed." % trashinfo_path)
 
